@@ -339,7 +339,10 @@ Section Total.
     destruct (str_eqb (split_first qs) K_DATA) eqn:E2.
     { use_strip qs E2. ga. ga.
       match goal with |- context [closed ?x] => destruct (closed x) end; [fin|].
-      ga. match goal with |- good _ (match ?t with _ => _ end) => destruct t end; fin. }
+      ga. match goal with |- good _ (match ?t with _ => _ end) => destruct t end; try fin.
+      eapply good_bind with (Q := fun _ => True); [unfold int_value;
+        match goal with |- context [parse_isize ?x] => destruct (parse_isize x) end; cbn; auto|].
+      intros; fin. }
     destruct (str_eqb (split_first qs) K_TARGET) eqn:E3.
     { use_strip qs E3. eapply good_bind; [apply good_parse_name|].
       intros [[n|] rem] L; [|cbn; auto].
